@@ -15,7 +15,7 @@ class IterBoom(Exception):
     pass
 
 
-def h_fail(n: int, j: int, k1: int, k2: int, k3: int, k4: int, limit: int, probe: int,
+def h_fail(n: int, j: int, k1: int, k2: int, k3: int, k4: int, limit: int, probe: int, silent: bool,
            kind='iterraise', numtype='int32', bo='little', atom=(), F=2, viaappend=False,
            _gate=None, _small=False):
     """iterappend of up to F chunks where something goes wrong at position j (0-based):
@@ -42,6 +42,7 @@ def h_fail(n: int, j: int, k1: int, k2: int, k3: int, k4: int, limit: int, probe
         if _small:
             assume(limit <= 64 * rb)
         node.limit = limit
+        w.silent_refusal = silent
         # completed chunks: those that fit entirely; the failure is at the first that does not
         done = 0
         size = n * rb
@@ -58,6 +59,7 @@ def h_fail(n: int, j: int, k1: int, k2: int, k3: int, k4: int, limit: int, probe
         first_chunk_refused = (done == 0)
     else:
         assume(j < F or kind == 'iterraise')
+        assume(not silent)
         done = j
         first_chunk_refused = False
     gate(_gate, {'empty_start_first_chunk_write': kind == 'limit' and n == 0 and first_chunk_refused})
@@ -120,7 +122,9 @@ spec = json.loads(sys.argv[1])
 path = spec['path']; n = spec['n']; ks = spec['ks']; atom = tuple(spec['atom']); numtype = spec['numtype']
 bo = spec['bo']; kind = spec['kind']; j = spec['j']; F = len(ks)
 ROW = spec['rowscale']           # rows are scaled so that byte limits lie above README/JSON sizes
-def vals(k, base):
+CROW = spec.get('chunkscale', ROW)
+def vals(k, base, scale=None):
+    ROW = scale if scale is not None else globals()['ROW']
     cnt = k * ROW * int(np.prod(atom, dtype=int))
     v = (np.arange(cnt, dtype='int64') + base)
     if numtype.startswith(('int', 'uint')) and np.iinfo(numtype).max < 2**62:
@@ -131,7 +135,7 @@ if n > 0:
     a = darr.asarray(path, orig, accessmode='r+')
 else:
     a = darr.create_array(path, shape=(0,) + atom, dtype=orig.dtype, accessmode='r+')
-chunks = [vals(k, 1000 * (i + 1)) if i % 2 == 0 else vals(k, 1000 * (i + 1)).astype('float64' if numtype != 'float64' else 'int32') for i, k in enumerate(ks)]
+chunks = [vals(k, 1000 * (i + 1), CROW) if i % 2 == 0 else vals(k, 1000 * (i + 1), CROW).astype('float64' if numtype != 'float64' else 'int32') for i, k in enumerate(ks)]
 class Boom(Exception): pass
 def gen():
     for i in range(F):
@@ -196,15 +200,27 @@ def replay_fail(cex, d):
         rb *= x
     rowscale = 1
     done = int(fx['j'])
+    silent = bool(fx.get('silent'))
     spec = dict(n=n, ks=ks, atom=atom, numtype=numtype, bo=fx.get('bo', 'little'), kind=kind,
                 j=int(fx['j']), rowscale=1, done=done, viaappend=bool(fx.get('viaappend')))
     if kind == 'limit':
         # scale rows so that the limit lies above the size of README / JSON files
-        rowscale = max(1, (32768 + rb - 1) // rb)
+        rowscale = max(1, (32768 + rb - 1) // rb) if not silent else 1    # silent short writes need SMALL chunks
         spec['rowscale'] = rowscale
         limit = int(fx['limit'])
         whole, extra = divmod(limit, rb)
         spec['limit_bytes'] = whole * rb * rowscale + extra   # same rows, same extra bytes
+        if silent:
+            # NumPy swallows the short write only when the chunk fits the stdio buffer: keep the chunks
+            # small, scale only the rows that are already there (so that the limit lies above README size)
+            if n == 0:
+                return {'reproduced': False, 'skip': True,
+                        'detail': 'silent refusal on an EMPTY array cannot be materialised: a limit below the first '
+                                  'chunk is also below the README size'}
+            rowscale = max(1, (32768 + rb - 1) // rb)
+            spec['rowscale'] = rowscale
+            spec['chunkscale'] = 1
+            spec['limit_bytes'] = n * rb * rowscale + (limit - n * rb)
         if spec['limit_bytes'] < 32768:
             spec['limit_bytes'] += 0
     with rp.scratch() as tmp:
